@@ -24,6 +24,8 @@ export class GenCtx {
     this.noCall = opts.noCall || false
     this.listKinds = opts.listKinds
     this.safeLists = opts.safeLists || false
+    // `slot:` value receivers below <x-a> (only for checks that do not execute updates: the parent is no dynamic-slots component)
+    this.slotReceivers = opts.slotReceivers || false
   }
   visibleNames() {
     return [...new Set([...this.dataNames, ...this.scopes])]
@@ -129,7 +131,7 @@ export function genFileSet(rng, opts = {}) {
     const dctx = new GenCtx({ dataNames: ['a', 'b', 'c'], moduleNames, maxDepth: 1, defNames: defs.map((d) => d.name), allowSlot: false, families: (opts.families || M.FAMILIES).filter((f) => f !== 'change'), noCall: opts.noCall, exprCtx: { ctors: null }, safeLists: opts.safeLists })
     defs.push({ name, children: M.genNodes(rng, dctx, 1, 3) })
   }
-  const ctx = new GenCtx({ moduleNames, maxDepth: opts.maxDepth ?? 3, defNames, includes, allowSlot: opts.allowSlot ?? true, families: opts.families, tags: opts.tags, noCall: opts.noCall, exprCtx: opts.exprCtx, safeLists: opts.safeLists })
+  const ctx = new GenCtx({ moduleNames, maxDepth: opts.maxDepth ?? 3, defNames, includes, allowSlot: opts.allowSlot ?? true, families: opts.families, tags: opts.tags, noCall: opts.noCall, exprCtx: opts.exprCtx, safeLists: opts.safeLists, slotReceivers: opts.slotReceivers })
   const children = M.genNodes(rng, ctx, ctx.maxDepth, opts.maxTop ?? 4)
   files[mainPath] = { path: mainPath, imports: [], wxs: withModule ? [{ module: 'm', code: MODULE_CODE('m') }] : [], defs, children }
   // file-level elements may be written anywhere between the top-level nodes
